@@ -97,7 +97,7 @@ Definition show_err (e : err) : pstr :=
   | EUntrusted _ => s "EUntrusted" | ENoLoader _ => s "ENoLoader" | ETrustedTrue => s "ETrustedTrue"
   | EKey => s "EKey" | EType => s "EType" | EValue => s "EValue" | EAttr => s "EAttr"
   | EImport => s "EImport" | ERecursion => s "ERecursion" | EUnsupported => s "EUnsupported"
-  | EOther => s "EOther" | EFuel => s "EFuel"
+  | EOther => s "EOther" | EFuel => s "EFuel" | EDomain => s "EDomain"
   end.
 Definition show_coutcome (o : coutcome) : pstr :=
   match o with
